@@ -19,24 +19,15 @@ Proof. induction a as [|x a IH]; cbn [enc app]; auto. rewrite IH, app_assoc. ref
 Lemma osize_app a b : osize (a ++ b) = (osize a + osize b)%nat.
 Proof. rewrite <- !enc_length, enc_app, app_length. reflexivity. Qed.
 
-(* ---- the scratch buffer never overflows when everything fits ---- *)
-Lemma emit_fits acc k v :
-  (length acc + 2 + length v <= SCRATCH)%nat -> emit acc k v = Ok (acc ++ enc1 (k, v)).
-Proof.
-  intros H. unfold emit, SCRATCH in *.
-  destruct (Nat.leb_spec (1024 - 1) (length acc)) as [C|C]; [blia|].
-  rewrite firstn_all2 by blia. reflexivity.
-Qed.
+(* ---- the scratch buffer holds every option (it is sized from the map) ---- *)
+Lemma emit_fits acc k v : emit acc k v = Ok (acc ++ enc1 (k, v)).
+Proof. reflexivity. Qed.
 
-Lemma emit_all_fits l acc :
-  (length acc + osize l <= SCRATCH)%nat -> emit_all l acc = Ok (acc ++ enc l).
+Lemma emit_all_fits l acc : emit_all l acc = Ok (acc ++ enc l).
 Proof.
-  revert acc. induction l as [|[k v] r IH]; intros acc H; cbn [emit_all enc].
+  revert acc. induction l as [|[k v] r IH]; intros acc; cbn [emit_all enc].
   - rewrite app_nil_r. reflexivity.
-  - cbn [osize snd] in H.
-    rewrite emit_fits by blia. cbn [bind]. rewrite IH.
-    + rewrite <- app_assoc. reflexivity.
-    + rewrite app_length. unfold enc1. cbn [fst snd app length]. blia.
+  - rewrite emit_fits. cbn [bind]. rewrite IH. rewrite <- app_assoc. reflexivity.
 Qed.
 
 (* ---- the order of emission as a pure function of the map ---- *)
@@ -185,34 +176,23 @@ Proof.
 Qed.
 
 (* the bytes AppendOptions assembles *)
-Lemma emit_ordered_fits order o acc : nodup o ->
-  (length acc + osize o <= SCRATCH)%nat ->
+Lemma emit_ordered_fits order o acc :
   emit_ordered order o acc = Ok (snd (pick order o), acc ++ enc (fst (pick order o))).
 Proof.
-  revert o acc. induction order as [|c r IH]; intros o acc Hn H; cbn [emit_ordered pick].
+  revert o acc. induction order as [|c r IH]; intros o acc; cbn [emit_ordered pick].
   - cbn [fst snd enc]. rewrite app_nil_r. reflexivity.
-  - destruct (lookup_opt c o) as [v|] eqn:El; [|apply IH; assumption].
-    pose proof (osize_remove c v o Hn El) as Hs.
-    rewrite emit_fits by blia. cbn [bind].
-    rewrite IH; [|apply nodup_remove; assumption|rewrite app_length; unfold enc1; cbn [fst snd app length]; blia].
+  - destruct (lookup_opt c o) as [v|] eqn:El; [|apply IH].
+    rewrite emit_fits. cbn [bind]. rewrite IH.
     destruct (pick r (remove_opt c o)) as [out rest]. cbn [fst snd enc]. rewrite <- app_assoc. reflexivity.
 Qed.
 
-Theorem append_options_bytes_fits o order perm : nodup o -> (osize o <= SCRATCH)%nat ->
+Theorem append_options_bytes_fits o order perm :
   append_options_bytes o order perm = Ok (enc (emission o order perm)).
 Proof.
-  intros Hn H. unfold append_options_bytes, emission.
-  rewrite emit_ordered_fits by (cbn [length]; try assumption; blia). cbn [bind].
-  pose proof (pick_spec (effective_order order) o Hn) as P.
-  destruct (pick (effective_order order) o) as [out rest]. cbn [fst snd]. destruct P as (P1 & P2 & P3 & P4).
-  assert (Hnr : nodup rest).
-  { unfold nodup, keys in *. rewrite map_app in P1. apply NoDup_app_remove_l in P1. assumption. }
-  assert (Hsz : osize (tail_order perm rest) = osize rest).
-  { rewrite tail_order_pick. pose proof (pick_spec perm rest Hnr) as Q. destruct (pick perm rest) as [a b].
-    cbn [fst snd]. destruct Q as (_ & Q2 & _). rewrite osize_app. assumption. }
-  rewrite emit_all_fits.
-  - cbn [app]. rewrite enc_app. reflexivity.
-  - cbn [app]. rewrite enc_length, Hsz. blia.
+  unfold append_options_bytes, emission.
+  rewrite emit_ordered_fits. cbn [bind].
+  destruct (pick (effective_order order) o) as [out rest]. cbn [fst snd].
+  rewrite emit_all_fits. cbn [app]. rewrite enc_app. reflexivity.
 Qed.
 
 (* ---------------------------------------------------------------- *)
@@ -307,7 +287,7 @@ Qed.
 
 (* the options of the encoded message, for every map / requested order / map iteration order *)
 Theorem dhcp_options_rt o order perm z :
-  nodup o -> opts_ok o -> (osize o <= SCRATCH)%nat ->
+  nodup o -> opts_ok o ->
   let em := emission o order perm in
   let area := enc em ++ 255 :: z in
   append_options_bytes o order perm = Ok (enc em) /\
@@ -317,7 +297,7 @@ Theorem dhcp_options_rt o order perm z :
   (* reference decoder: exactly these options in this order, End present, then the padding *)
   ref_dhcp_opts (S (length area)) area = Some em /\ after_end (S (length area)) area = Some z.
 Proof.
-  intros Hn Hok Hsz em area.
+  intros Hn Hok em area.
   destruct (emission_spec o order perm Hn) as (E1 & E2 & E3). fold em in E1, E2, E3.
   assert (Hokem : opts_ok em).
   { unfold opts_ok in *. rewrite Forall_forall in *. intros [k v] Hin.
@@ -325,7 +305,7 @@ Proof.
   assert (Hfuel : (length em < S (length area))%nat).
   { unfold area. rewrite app_length, enc_length. cbn [length].
     assert (length em <= osize em)%nat by (clear; induction em as [|x r IH]; cbn [length osize]; blia). blia. }
-  split. { apply append_options_bytes_fits; assumption. }
+  split. { apply append_options_bytes_fits. }
   split. { exact E1. } split. { exact E2. } split. { exact E3. }
   split. { intros k. unfold area. rewrite parse_options_enc by assumption.
            rewrite lookup_fold_set by assumption. cbn [lookup_opt]. rewrite E3. destruct (lookup_opt k o); reflexivity. }
@@ -335,13 +315,12 @@ Qed.
 
 Example dhcp_options_rt_ex :
   let o := set_opt 53 [5] [(1, [255;255;255;0]); (3, [192;168;0;1]); (6, [8;8;8;8]); (12, [104;105])] in
-  nodup o /\ opts_ok o /\ (osize o <= SCRATCH)%nat /\
+  nodup o /\ opts_ok o /\
   append_options_bytes o [6; 3; 1] [12; 53] = Ok (enc (emission o [6; 3; 1] [12; 53])).
 Proof.
   cbn zeta. split.
   { unfold nodup. vm_compute. repeat constructor; cbn; intuition discriminate. }
   split. { unfold opts_ok. vm_compute. repeat constructor; try discriminate; try (cbn; blia). }
-  split. { vm_compute. blia. }
   vm_compute. reflexivity.
 Qed.
 
@@ -420,16 +399,16 @@ Theorem encode_dhcp4_bytes b opcode mt chaddr ci yi xid bc options order perm :
   match chaddr with Some m => length m = 6%nat | None => True end ->
   match xid with Some x => length x = 4%nat | None => True end ->
   let o' := set_opt 53 [mt] options in
-  nodup o' -> (osize o' <= SCRATCH)%nat -> (241 + osize o' <= cap b)%nat ->
+  nodup o' -> (241 + osize o' <= cap b)%nat ->
   let em := emission o' order perm in
   let L := Nat.max (241 + osize o') 300 in
   encode_dhcp4 b opcode mt chaddr ci yi xid bc options order perm =
   Ok (mkSlice (dhcp_frame_bytes (arr b) opcode chaddr ci yi xid bc em ++ skipn L (arr b)) L).
 Proof.
-  intros Hc Hch Hx o' Hn Hsz Hfit em L.
+  intros Hc Hch Hx o' Hn Hfit em L.
   destruct (emission_spec o' order perm Hn) as (E1 & E2 & E3). fold em in E1, E2, E3.
   unfold encode_dhcp4. destruct (Nat.ltb_spec (cap b) 300) as [C|_]; [blia|].
-  fold o'. rewrite append_options_bytes_fits by assumption. cbn [bind].
+  fold o'. rewrite append_options_bytes_fits. cbn [bind].
   change (emission (set_opt 53 [mt] options) order perm) with em.
   unfold cap in *.
   rewrite dhcp_fixed_bytes by (try assumption; blia).
@@ -568,7 +547,7 @@ Theorem dhcp4_rt b opcode mt chaddr ci yi xid bc options order perm :
   match chaddr with Some m => length m = 6%nat | None => True end ->
   match xid with Some x => length x = 4%nat | None => True end ->
   let o' := set_opt 53 [mt] options in
-  nodup options -> opts_ok o' -> (osize o' <= SCRATCH)%nat -> (241 + osize o' <= cap b)%nat ->
+  nodup options -> opts_ok o' -> (241 + osize o' <= cap b)%nat ->
   let em := emission o' order perm in
   let L := Nat.max (241 + osize o') 300 in
   let pad := repeat 0 (300 - (241 + osize em)) in
@@ -588,11 +567,11 @@ Theorem dhcp4_rt b opcode mt chaddr ci yi xid bc options order perm :
     (* RFC 2132 3.3 *)
     mask_before_router em = true.
 Proof.
-  intros Hc Hch Hx o' Hn0 Hok Hsz Hfit em L pad.
+  intros Hc Hch Hx o' Hn0 Hok Hfit em L pad.
   assert (Hn : nodup o') by (apply nodup_set; assumption).
-  pose proof (encode_dhcp4_bytes b opcode mt chaddr ci yi xid bc options order perm Hc Hch Hx Hn Hsz Hfit) as HB.
+  pose proof (encode_dhcp4_bytes b opcode mt chaddr ci yi xid bc options order perm Hc Hch Hx Hn Hfit) as HB.
   cbn zeta in HB. fold o' em L in HB.
-  destruct (dhcp_options_rt o' order perm pad Hn Hok Hsz) as (D1 & D2 & D3 & D4 & D5 & D6 & D7).
+  destruct (dhcp_options_rt o' order perm pad Hn Hok) as (D1 & D2 & D3 & D4 & D5 & D6 & D7).
   fold em in D1, D2, D3, D4, D5, D6, D7.
   eexists. split. { exact HB. }
   set (H := dhcp_hdr (arr b) opcode chaddr ci yi xid bc).
